@@ -202,7 +202,7 @@ func init() {
 			q = 100000
 		}
 		facet.Register(facet.F[In]{
-			Prop: "C01", Name: "sound/" + op, Rule: soundRule, Quick: q, Thorough: q * 10, Shards: 4,
+			Prop: "C01", Name: "sound/" + op, Rule: soundRule, Quick: q, Thorough: q * 5, Shards: 4,
 			Gen: genFor(op), Check: checkSound,
 		})
 	}
@@ -210,7 +210,7 @@ func init() {
 	// chain: concrete ⊑ a1 ⊑ a2 ; result(a2) must admit result(concrete) and,
 	// where result(a1) is wholly known, result(a1) as well.
 	facet.Register(facet.F[Chain]{
-		Prop: "C01", Name: "sound/chain", Quick: 100000, Thorough: 1000000, Shards: 4,
+		Prop: "C01", Name: "sound/chain", Quick: 100000, Thorough: 600000, Shards: 4,
 		Rule: "as sound/<op> with the operation drawn uniformly, weakened twice (a2 weakens a1): the result on a2 must admit the concrete result; non-trivial = concrete call succeeded and a2 differs from a1",
 		Gen: func(t *rapid.T) Chain {
 			c := ops.AnyConcrete().Draw(t, "case")
@@ -266,7 +266,7 @@ func init() {
 	// converse: wholly known operands => wholly known result; never null for
 	// arithmetic, comparison, logic, length and membership.
 	facet.Register(facet.F[ops.Case]{
-		Prop: "C01", Name: "converse/known-in-known-out", Quick: 200000, Thorough: 1500000, Shards: 4,
+		Prop: "C01", Name: "converse/known-in-known-out", Quick: 200000, Thorough: 1000000, Shards: 4,
 		Rule: "concrete operand tuple, operation drawn uniformly; the call must yield a wholly known result, and a non-null one for arithmetic / comparison / logic / length / membership; non-trivial = the call succeeded and an operand is a collection, structure, null, or a non-small number; distinct = hash of the input JSON",
 		Gen:  func(t *rapid.T) ops.Case { return ops.AnyConcrete().Draw(t, "case") },
 		Check: func(c *facet.Ctx, cs ops.Case) error {
